@@ -122,6 +122,7 @@ func init() {
 		// C05_ONLY=Rw: run only the rewrite-decision leg (development aid)
 		if os.Getenv("C05_ONLY") == "Rw" {
 			c05RegisterRw(c)
+			c05RegisterRs(c)
 			return
 		}
 		g := &engGen{allowRTL: true, perPat: 8, maxLen: 10, biasRewrite: true}
@@ -137,5 +138,6 @@ func init() {
 		})
 		c05RegisterCert(c)
 		c05RegisterRw(c)
+		c05RegisterRs(c)
 	})
 }
